@@ -556,6 +556,7 @@ type FieldPartition struct {
 type ImmutableDecl struct {
 	Name  string
 	Props []string
+	Only  []string // fieldwriters: functions allowed to assign Type.field (Name = "Type.field")
 }
 
 type Axiom struct {
@@ -576,7 +577,7 @@ type ContractSet struct {
 }
 
 var clauseKW = map[string]bool{"func": true, "assume": true, "pure": true, "pred": true, "axiom": true, "lemma": true, "requires": true,
-	"ensures": true, "loop": true, "property": true, "modifies": true, "ghost": true, "option": true, "at": true, "proof": true, "trusted": true, "induction": true, "guarded": true, "end": true, "assert": true, "use": true, "opaque": true, "macro": true, "immutable": true, "fieldpartition": true}
+	"ensures": true, "loop": true, "property": true, "modifies": true, "ghost": true, "option": true, "at": true, "proof": true, "trusted": true, "induction": true, "guarded": true, "end": true, "assert": true, "use": true, "opaque": true, "macro": true, "immutable": true, "fieldpartition": true, "fieldwriters": true}
 
 var labelRe = regexp.MustCompile(`^([A-Za-z_][A-Za-z0-9_\-]*):\s+(.*)$`)
 
@@ -976,6 +977,25 @@ func (cs *ContractSet) parseFile(fname, data string) error {
 			d := ImmutableDecl{Name: fs[0]}
 			for _, f := range fs[1:] {
 				if f != "property" {
+					d.Props = append(d.Props, f)
+				}
+			}
+			cs.Immutable = append(cs.Immutable, d)
+			cs.Order = append(cs.Order, "immutable:"+d.Name)
+			cur, curLemma = nil, nil
+		case "fieldwriters":
+			// fieldwriters Type.field only F G property Cxx
+			fs := strings.Fields(rest)
+			d := ImmutableDecl{Name: fs[0]}
+			mode := ""
+			for _, f := range fs[1:] {
+				if f == "only" || f == "property" {
+					mode = f
+					continue
+				}
+				if mode == "only" {
+					d.Only = append(d.Only, f)
+				} else if mode == "property" {
 					d.Props = append(d.Props, f)
 				}
 			}
